@@ -50,7 +50,12 @@ PROPS = {
         design="3/C02"),
     "C03": dict(
         engine="histsim", profile="C03", builds=["dbg", "rwdi", "rel"], level="exploration",
-        quick_s=50, thorough_s=600,
+        parts=[dict(engine="histsim", profile="C03", builds=["dbg", "rwdi", "rel"], weight=5.0),
+               # the try_ functions of the adapters (never throw, never reach a throwing interface) ...
+               dict(engine="compsim", profile="C03W", builds=["dbg"], weight=0.5),
+               # ... and joint memory as a fixed-size source that is exhausted
+               dict(engine="compsim", profile="C11", builds=["dbg"], weight=0.5)],
+        quick_s=55, thorough_s=600,
         technique="deterministic simulation with fault injection: upstream failure attached to ops, "
                   "exhaustion of fixed sources, over-limit requests; exception/handler/try_ oracles",
         text="Seeded histories with upstream failures at drawn upstream calls, fixed sources driven dry, "
